@@ -279,6 +279,14 @@ def reader_consume(ctx, rule):
                     bad.append("queued-bytes counter becomes %s, expected bytes - len(chunk)" % short(b2, 80))
             elif variant_at_end(r["o"], fs) != R["fused"]:
                 bad.append("state after the last chunk is %s" % short(fs, 40))
+            else:
+                # leaving the consumer-finished state behind is only right after the *last* chunk: the queue is empty
+                # after the pop and the producer has finished; otherwise later chunks would be lost / the body ends early
+                empty_after = any(isinstance(tt, tuple) and tt[0] == "binop" and tt[1] == "Eq" and isinstance(tt[2], tuple) and tt[2][0] == "len"
+                                  and "pop_front" in repr(tt[2])[:300] and tt[3] == const(0) and vv == 1 for tt, vv in r["o"].cons.known.items())
+                if not (empty_after and r["dropped"] == 1):
+                    bad.append("the reader marks itself finished after a chunk although %s: the rest of the body would never be delivered" %
+                               ("chunks may still be queued" if not empty_after else "the producer has not finished"))
         if bad:
             ctx.violation(rule, "%s|%s" % (rule, bad[0][:40]), "consume path: " + "; ".join(bad), where=_w(r["o"]))
         else:
